@@ -56,6 +56,8 @@ type Env struct {
 	quantDepth int
 	ghostAsserts int
 	aliases      map[string]string // contract name -> renamed local (verifyItem's rebinding search)
+	paramVals    []Value
+	resultVals   []Value
 	modelTerms []string // terms to evaluate on sat (entry-state description)
 	modelNames []string
 	usedContracts map[string]bool
